@@ -1,0 +1,60 @@
+//! Verification hooks.  This module only exists with the cargo feature
+//! `isographlabs_isograph_verif`; without the feature the crate is unchanged.
+//!
+//! A thread can register a *controller*.  Every atomic operation of
+//! `AtomicArena::{add_get, slice_for_slot, slice_for_slot_slow, get, len}` and
+//! of `ShardedSet::{get_or_insert_lock, get}` / `InternTable::intern` is
+//! preceded by a call to `yield_point(label, arg)`, which calls the controller
+//! of the current thread (a deterministic scheduler blocks there until the
+//! thread is scheduled).  Threads without a controller pass straight through.
+
+use std::cell::RefCell;
+
+pub use crate::atomic_arena::verif_bucket_capacity;
+pub use crate::atomic_arena::verif_consts;
+pub use crate::atomic_arena::verif_index;
+pub use crate::atomic_arena::AtomicArena;
+pub use crate::atomic_arena::Ref;
+pub use crate::sharded_set::verif_shard_consts;
+pub use crate::small_bytes::verif_small_max_len;
+pub use crate::small_bytes::SmallBytes;
+
+pub type Controller = Box<dyn Fn(&'static str, u64)>;
+
+thread_local! {
+    static CONTROLLER: RefCell<Option<Controller>> = RefCell::new(None);
+}
+
+/// Install (or remove) the controller of the calling thread.
+pub fn set_controller(c: Option<Controller>) {
+    CONTROLLER.with(|cell| *cell.borrow_mut() = c);
+}
+
+fn controlled() -> bool {
+    CONTROLLER.with(|cell| cell.borrow().is_some())
+}
+
+/// Called before an atomic operation.
+pub fn yield_point(label: &'static str, arg: u64) {
+    CONTROLLER.with(|cell| {
+        if let Some(c) = &*cell.borrow() {
+            c(label, arg)
+        }
+    });
+}
+
+/// Called before a blocking lock acquisition.  A controlled thread yields,
+/// and when it is scheduled while the lock cannot be taken it yields again
+/// with the same label, so that the real acquisition that follows never
+/// blocks a controlled thread (all other controlled threads are paused).
+pub fn before_lock(label: &'static str, arg: u64, unavailable: impl Fn() -> bool) {
+    if !controlled() {
+        return;
+    }
+    loop {
+        yield_point(label, arg);
+        if !unavailable() {
+            return;
+        }
+    }
+}
